@@ -14,9 +14,10 @@ EXTENDS Naturals, Sequences, FiniteSets, TLC, Json
 CONSTANTS Tier
 DirNames == {"subdir", "test", "tests", "docs", "testing", "mytests", "docs_old", "test_"}
 Filtered == {"test", "tests", "docs"}
-Stems(depth) == IF depth = 2 THEN {"mod", "test_x", "tests", "docs"} ELSE {"mod", "test_x"}   \* never x.py next to a directory x/
+\* "test__init__": a test module for a package file; its directory is a plain directory without an __init__.py of its own
+Stems(depth) == IF depth = 2 THEN {"mod", "test_x", "tests", "docs"} ELSE IF depth = 1 THEN {"mod", "test_x", "test__init__"} ELSE {"mod", "test_x"}   \* never x.py next to a directory x/
 Paths == { <<>> } \cup { <<a>> : a \in DirNames } \cup { <<a, b>> : a \in DirNames, b \in DirNames }
-Locations == { <<p, s>> : p \in Paths, s \in {"mod", "test_x", "tests", "docs"} } 
+Locations == { <<p, s>> : p \in Paths, s \in {"mod", "test_x", "tests", "docs", "test__init__"} } 
 LegalLoc(l) == l[2] \in Stems(Len(l[1]))
 Excluded(l) == \E j \in 1..Len(l[1]) : l[1][j] \in Filtered
 Keep == << <<>>, "keepmod" >>
